@@ -518,6 +518,40 @@ func execC06Bubble(r *kernel.Run, s C06Spec) {
 		}
 		a.builder = saved
 	}
+	// message 2 lost: the issuer starts over with a fresh nonce1 and the holder answers again from the
+	// SAME builder (it holds the commitment and nonce2); the retried run must complete honestly
+	if wanted(s.OnlyFault, "drop-m2-retry-same-builder") {
+		r.Fault("drop")
+		r.Eval(1)
+		savedNonce := a.nonce1
+		a.nonce1 = randBits(w.hr, 80)
+		det := map[string]any{"fault": "drop-m2-retry-same-builder"}
+		var cred *gabi.Credential
+		var stage string
+		var err error
+		if p, fr := guardFrame(func() {
+			var cm *gabi.IssueCommitmentMessage
+			stage = "holder-commit"
+			if cm, err = a.builder.CommitToSecretAndProve(a.nonce1); err != nil {
+				return
+			}
+			stage = "issuer"
+			var w3 []byte
+			if w3, err = a.issuerAnswer(mustJSON(cm)); err != nil {
+				return
+			}
+			stage = "holder-construct"
+			cred, err = a.holderFinish(w3)
+		}); p != "" {
+			r.Violate("C06:panic:"+fr, det, "retry after a lost commitment message panics: %s", p)
+		} else if err != nil {
+			r.Violate("C06:honest-retry-failed:"+stage, det, "after a lost commitment message the holder answered a fresh nonce from the same builder; the retried honest run failed at %s: %v", stage, err)
+		} else {
+			a.checkIssued(r, "drop-m2-retry-same-builder", cred)
+		}
+		a.nonce1 = savedNonce
+		a.mIssuer = honestIssuerShares
+	}
 	// duplicate delivery of message 3: idempotent, same credential
 	if wanted(s.OnlyFault, "dup-m3") {
 		r.Fault("dup")
